@@ -46,9 +46,11 @@ func (state *singleRateLimitState) TryToIncrement(
 	state.windowData = windowData
 	state.ensureWindowIsUpdated()
 
-	maxAllowedInWindows := int64(math.Ceil(float64(
-		windowData.AllowedRequestCount+state.spillover) *
-		windowData.QuotaAllocationRatio))
+	// the ratio is a percentage divided by 100 in floating point: 25 * 0.28 evaluates to
+	// 7.000000000000001, so drop the representation noise before rounding the share up
+	allocatedShare := float64(windowData.AllowedRequestCount+state.spillover) *
+		windowData.QuotaAllocationRatio
+	maxAllowedInWindows := int64(math.Ceil(math.Round(allocatedShare*1e9) / 1e9))
 	if state.counter >= maxAllowedInWindows {
 		return CurrentLimitState{state.counter, Block}
 	}
